@@ -87,6 +87,44 @@ theorem SameFrame.refl (a : RB) : SameFrame a a := ⟨rfl, rfl, rfl, rfl⟩
 theorem SameFrame.trans {a b c : RB} (h1 : SameFrame a b) (h2 : SameFrame b c) : SameFrame a c :=
   ⟨h2.stack.trans h1.stack, h2.masks.trans h1.masks, h2.lines.trans h1.lines, h2.cols.trans h1.cols⟩
 
+/-- Every mask was made at a depth not exceeding the current one. -/
+def MasksLe (rb : RB) : Prop := ∀ m ∈ rb.masks, m.2 ≤ rb.stack.length
+
+theorem inClip_clipTo (rb : RB) (r : Rect) (L C : Int) :
+    (rb.clipTo r).inClip L C = (rb.inClip L C && (r.translate rb.xl rb.xc).memb L C) := by
+  have h := writable_clipTo rb r L C
+  simp only [RB.writable, RB.masked, clipTo_masks] at h
+  cases hm : (rb.masks.any fun m => m.1.memb L C)
+  · simpa [hm] using h
+  · -- a masked cell: decide directly
+    unfold RB.clipTo
+    cases hi : Rect.intersect rb.clip (r.translate rb.xl rb.xc) with
+    | none =>
+      have hn := Props.C06.intersect_none _ _ hi L C
+      simp only [RB.inClip]
+      apply Bool.eq_iff_iff.mpr
+      simp only [Bool.and_eq_true, bne_iff_ne, ne_eq, memb_true_iff]
+      constructor
+      · intro hh; exact (hh.1 trivial).elim
+      · intro hh; exact absurd ⟨hh.1.2, hh.2⟩ hn
+    | some c =>
+      have hs := Props.C06.intersect_some _ _ _ hi
+      simp only [RB.inClip]
+      apply Bool.eq_iff_iff.mpr
+      simp only [Bool.and_eq_true, bne_iff_ne, ne_eq, memb_true_iff]
+      constructor
+      · intro hh
+        have := (hs.2 L C).1 hh.2
+        refine ⟨⟨?_, this.1⟩, this.2⟩
+        have := this.1
+        unfold Rect.Mem Rect.bottom at this
+        omega
+      · intro hh
+        refine ⟨?_, (hs.2 L C).2 ⟨hh.1.2, hh.2⟩⟩
+        have := hs.1
+        unfold Rect.Nonempty at this
+        omega
+
 /-! ### confinement of the drawing operations (what C03 calls `confined`) -/
 
 theorem putRun_cells_of_not_writable (rb : RB) (line col n : Int) (f : Int → Option CellV) (L C : Int)
@@ -105,75 +143,343 @@ theorem putRect_cells_of_not_writable (rb : RB) (rect : Rect) (v : Option CellV)
   rw [h] at hh
   exact absurd hh.2 (by simp)
 
-theorem draw_cells_of_not_writable (rb : RB) (op : DrawOp) (L C : Int)
-    (h : rb.writable L C = false) : (rb.draw op).cells L C = rb.cells L C := by
-  cases op with
-  | eraseRect r => exact putRect_cells_of_not_writable rb r _ L C h
-  | skipRect r => exact putRect_cells_of_not_writable rb r _ L C h
-  | textAt l c s =>
-    simp only [RB.draw, RB.textAt]
-    split
-    · exact putRun_cells_of_not_writable rb l c _ _ L C h
-    · show (rb.putRun l c (textCols s) fun k => some (CellV.text rb.nextId rb.pen s k)).cells L C = rb.cells L C
-      exact putRun_cells_of_not_writable rb l c _ _ L C h
-  | charAt l c cp => simp only [RB.draw, RB.charAt]; exact putRun_cells_of_not_writable rb l c _ _ L C h
-  | clear => exact putRect_cells_of_not_writable rb _ _ L C h
-  | setPen p => rfl
-  | translate d r => rfl
-  | clip r => simp [RB.draw]
+/-- `b` is `a` after drawing: the frame (stack, masks, size, clip) is the same and only cells `a` lets a drawing
+    operation touch can differ. -/
+structure Paints (a b : RB) : Prop where
+  stack : b.stack = a.stack
+  masks : b.masks = a.masks
+  lines : b.lines = a.lines
+  cols : b.cols = a.cols
+  clip : b.clip = a.clip
+  cells : ∀ L C, a.writable L C = false → b.cells L C = a.cells L C
 
-/-- No drawing operation enlarges the writable set. -/
-theorem draw_writable_sub (rb : RB) (op : DrawOp) (L C : Int)
-    (h : (rb.draw op).writable L C = true) : rb.writable L C = true := by
+theorem Paints.refl (a : RB) : Paints a a := ⟨rfl, rfl, rfl, rfl, rfl, fun _ _ _ => rfl⟩
+
+theorem Paints.writable {a b : RB} (h : Paints a b) (L C : Int) : b.writable L C = a.writable L C := by
+  simp only [RB.writable, RB.inClip, RB.masked, h.clip, h.masks]
+
+theorem Paints.trans {a b c : RB} (h1 : Paints a b) (h2 : Paints b c) : Paints a c :=
+  ⟨h2.stack.trans h1.stack, h2.masks.trans h1.masks, h2.lines.trans h1.lines, h2.cols.trans h1.cols,
+   h2.clip.trans h1.clip, fun L C h => by
+     rw [h2.cells L C (by rw [h1.writable]; exact h), h1.cells L C h]⟩
+
+theorem paints_putRun (rb : RB) (line col n : Int) (f : Int → Option CellV) : Paints rb (rb.putRun line col n f) :=
+  ⟨rfl, rfl, rfl, rfl, rfl, fun L C h => putRun_cells_of_not_writable rb line col n f L C h⟩
+
+theorem paints_putRect (rb : RB) (rect : Rect) (v : Option CellV) : Paints rb (rb.putRect rect v) :=
+  ⟨rfl, rfl, rfl, rfl, rfl, fun L C h => putRect_cells_of_not_writable rb rect v L C h⟩
+
+theorem paints_textAt (rb : RB) (l c : Int) (s : List Nat) : Paints rb (rb.textAt l c s) := by
+  unfold RB.textAt
+  split
+  · exact paints_putRun rb l c _ _
+  · have := paints_putRun rb l c (textCols s) (fun k => some (CellV.text rb.nextId rb.pen s k))
+    exact ⟨this.stack, this.masks, this.lines, this.cols, this.clip, this.cells⟩
+
+theorem paints_linecell (rb : RB) (line col : Int) (bits : Nat) : Paints rb (rb.linecell line col bits) := by
+  unfold RB.linecell
+  simp only
+  split
+  · rename_i hw
+    refine ⟨rfl, rfl, rfl, rfl, rfl, ?_⟩
+    intro L C h
+    simp only
+    rw [if_neg]
+    rintro ⟨h1, h2⟩
+    rw [h1, h2, hw] at h
+    exact absurd h (by simp)
+  · exact Paints.refl rb
+
+theorem paints_foldl {α : Type} (f : RB → α → RB) (hf : ∀ rb x, Paints rb (f rb x)) :
+    ∀ (xs : List α) (rb : RB), Paints rb (xs.foldl f rb) := by
+  intro xs
+  induction xs with
+  | nil => intro rb; exact Paints.refl rb
+  | cons x rest ih => intro rb; exact (hf rb x).trans (ih (f rb x))
+
+theorem paints_hlineAt (rb : RB) (line c0 c1 : Int) (style caps : Nat) : Paints rb (rb.hlineAt line c0 c1 style caps) := by
+  unfold RB.hlineAt
+  exact paints_foldl (fun rb (x : Int × Nat) => rb.linecell line x.1 x.2) (fun rb x => paints_linecell rb line x.1 x.2) _ rb
+
+theorem paints_vlineAt (rb : RB) (l0 l1 col : Int) (style caps : Nat) : Paints rb (rb.vlineAt l0 l1 col style caps) := by
+  unfold RB.vlineAt
+  exact paints_foldl (fun rb (x : Int × Nat) => rb.linecell x.1 col x.2) (fun rb x => paints_linecell rb x.1 col x.2) _ rb
+
+theorem paints_copyRect (rb : RB) (dest src : Rect) : Paints rb (rb.copyRect dest src) := by
+  unfold RB.copyRect
+  simp only
+  split
+  · exact Paints.refl rb
+  · split
+    · exact Paints.refl rb
+    · refine ⟨rfl, rfl, rfl, rfl, rfl, ?_⟩
+      intro L C h
+      simp only
+      rw [if_neg]
+      intro hh
+      rw [h] at hh
+      exact absurd hh.2 (by simp)
+
+theorem paints_moveRect (rb : RB) (dest src : Rect) : Paints rb (rb.moveRect dest src) := by
+  unfold RB.moveRect
+  simp only
+  split
+  · exact Paints.refl rb
+  · split
+    · exact Paints.refl rb
+    · have h1 := paints_copyRect rb dest src
+      refine h1.trans ⟨rfl, rfl, rfl, rfl, rfl, ?_⟩
+      intro L C h
+      simp only
+      rw [if_neg]
+      intro hh
+      rw [h] at hh
+      exact absurd hh.2.2 (by simp)
+
+/-- `b` is `a` after a drawing operation that may also narrow the clip. -/
+structure Draws (a b : RB) : Prop where
+  stack : b.stack = a.stack
+  masks : b.masks = a.masks
+  lines : b.lines = a.lines
+  cols : b.cols = a.cols
+  clip : ∀ L C, b.inClip L C = true → a.inClip L C = true
+  cells : ∀ L C, a.writable L C = false → b.cells L C = a.cells L C
+
+theorem Paints.draws {a b : RB} (h : Paints a b) : Draws a b :=
+  ⟨h.stack, h.masks, h.lines, h.cols, fun L C hh => by simpa [RB.inClip, h.clip] using hh, h.cells⟩
+
+theorem Draws.writable {a b : RB} (h : Draws a b) (L C : Int) (hw : b.writable L C = true) : a.writable L C = true := by
+  simp only [RB.writable, RB.masked, h.masks, Bool.and_eq_true] at hw ⊢
+  exact ⟨h.clip L C hw.1, hw.2⟩
+
+/-- A drawing operation that is not `save` / `savepen` / `restore`. -/
+def DrawOp.isStack : DrawOp → Bool
+  | .save => true
+  | .savepen => true
+  | .restore => true
+  | _ => false
+
+theorem draw_draws (rb : RB) (op : DrawOp) (hns : op.isStack = false) : Draws rb (rb.draw op) := by
   cases op with
-  | eraseRect r => exact h
-  | skipRect r => exact h
-  | textAt l c s =>
-    simp only [RB.draw, RB.textAt] at h
-    split at h <;> exact h
-  | charAt l c cp => exact h
-  | clear => exact h
-  | setPen p => exact h
-  | translate d r => exact h
+  | eraseRect r => exact (paints_putRect rb r _).draws
+  | skipRect r => exact (paints_putRect rb r _).draws
+  | textAt l c s => exact (paints_textAt rb l c s).draws
+  | charAt l c cp => exact (paints_putRun rb l c 1 (fun _ => some (.plain (Cell.ofPen rb.pen cp)))).draws
+  | clear => exact (paints_putRect rb _ _).draws
+  | setPen p => exact (Paints.draws ⟨rfl, rfl, rfl, rfl, rfl, fun _ _ _ => rfl⟩)
+  | translate d r => exact (Paints.draws ⟨rfl, rfl, rfl, rfl, rfl, fun _ _ _ => rfl⟩)
   | clip r =>
-    simp only [RB.draw, writable_clipTo, Bool.and_eq_true] at h
+    refine ⟨by simp [RB.draw], by simp [RB.draw], by simp [RB.draw], by simp [RB.draw], ?_, by simp [RB.draw]⟩
+    intro L C h
+    simp only [RB.draw, inClip_clipTo, Bool.and_eq_true] at h
     exact h.1
+  | hline l c0 c1 st caps => exact (paints_hlineAt rb l c0 c1 st caps).draws
+  | vline l0 l1 c st caps => exact (paints_vlineAt rb l0 l1 c st caps).draws
+  | copyRect d s => exact (paints_copyRect rb d s).draws
+  | moveRect d s => exact (paints_moveRect rb d s).draws
+  | save => cases hns
+  | savepen => cases hns
+  | restore => cases hns
 
-theorem draw_sameFrame (rb : RB) (op : DrawOp) : SameFrame rb (rb.draw op) := by
-  cases op with
-  | textAt l c s => simp only [RB.draw, RB.textAt]; split <;> exact ⟨rfl, rfl, rfl, rfl⟩
-  | clip r => simp only [RB.draw]; exact ⟨by simp, by simp, by simp, by simp⟩
-  | _ => exact ⟨rfl, rfl, rfl, rfl⟩
+/-- The cells a saved clip lets through. -/
+def clipHas (clip : Rect) (L C : Int) : Bool := clip.lines != 0 && clip.memb L C
 
-theorem run_sameFrame (prog : List DrawOp) : ∀ rb : RB, SameFrame rb (rb.run prog) := by
-  induction prog with
-  | nil => intro rb; exact SameFrame.refl rb
-  | cons op rest ih =>
-    intro rb
-    exact (draw_sameFrame rb op).trans (ih (rb.draw op))
+/-- The buffer in the middle of a handler's program: `n` frames of the handler's own on top of the stack the handler
+    found (`rb0`), each of whose clips lies inside the clip the handler found; masks untouched; nothing outside what
+    `rb0` lets the handler touch has changed. -/
+structure Mid (rb0 : RB) (n : Nat) (rb : RB) : Prop where
+  stack : ∃ extra, rb.stack = extra ++ rb0.stack ∧ extra.length = n ∧
+    ∀ f ∈ extra, f.penOnly = false → ∀ L C, clipHas f.clip L C = true → rb0.inClip L C = true
+  masks : rb.masks = rb0.masks
+  lines : rb.lines = rb0.lines
+  cols : rb.cols = rb0.cols
+  clip : ∀ L C, rb.inClip L C = true → rb0.inClip L C = true
+  cells : ∀ L C, rb0.writable L C = false → rb.cells L C = rb0.cells L C
 
-theorem run_writable_sub (prog : List DrawOp) : ∀ (rb : RB) (L C : Int),
-    (rb.run prog).writable L C = true → rb.writable L C = true := by
-  induction prog with
-  | nil => intro rb L C h; exact h
-  | cons op rest ih =>
-    intro rb L C h
-    exact draw_writable_sub rb op L C (ih (rb.draw op) L C h)
+theorem Mid.start (rb0 : RB) : Mid rb0 0 rb0 :=
+  ⟨⟨[], rfl, rfl, fun _ h => by cases h⟩, rfl, rfl, rfl, fun _ _ h => h, fun _ _ _ => rfl⟩
 
-/-- **Confinement of a drawing program**: whatever the program, a cell the buffer does not let it touch keeps its
-    value. -/
-theorem run_cells_of_not_writable (prog : List DrawOp) : ∀ (rb : RB) (L C : Int),
-    rb.writable L C = false → (rb.run prog).cells L C = rb.cells L C := by
-  induction prog with
-  | nil => intro rb L C _; rfl
-  | cons op rest ih =>
-    intro rb L C h
-    have h1 : (rb.draw op).writable L C = false := by
-      cases hh : (rb.draw op).writable L C with
+theorem Mid.writable {rb0 rb : RB} {n : Nat} (h : Mid rb0 n rb) (L C : Int) (hw : rb.writable L C = true) :
+    rb0.writable L C = true := by
+  simp only [RB.writable, RB.masked, h.masks, Bool.and_eq_true] at hw ⊢
+  exact ⟨h.clip L C hw.1, hw.2⟩
+
+theorem Mid.draw {rb0 rb rb' : RB} {n : Nat} (h : Mid rb0 n rb) (hd : Draws rb rb') : Mid rb0 n rb' := by
+  refine ⟨?_, hd.masks.trans h.masks, hd.lines.trans h.lines, hd.cols.trans h.cols,
+    fun L C hh => h.clip L C (hd.clip L C hh), ?_⟩
+  · obtain ⟨extra, he, hl, hc⟩ := h.stack
+    exact ⟨extra, by rw [hd.stack, he], hl, hc⟩
+  · intro L C hw
+    have : rb.writable L C = false := by
+      cases hh : rb.writable L C with
       | false => rfl
-      | true => rw [draw_writable_sub rb op L C hh] at h; exact absurd h (by simp)
-    show ((rb.draw op).run rest).cells L C = rb.cells L C
-    rw [ih (rb.draw op) L C h1, draw_cells_of_not_writable rb op L C h]
+      | true => rw [h.writable L C hh] at hw; exact absurd hw (by simp)
+    rw [hd.cells L C this, h.cells L C hw]
+
+theorem Mid.save {rb0 rb : RB} {n : Nat} (h : Mid rb0 n rb) : Mid rb0 (n + 1) rb.save := by
+  obtain ⟨extra, he, hl, hc⟩ := h.stack
+  refine ⟨⟨{ xl := rb.xl, xc := rb.xc, clip := rb.clip, pen := rb.pen, penOnly := false } :: extra,
+    by simp [RB.save, he], by simp [hl], ?_⟩, h.masks, h.lines, h.cols, h.clip, h.cells⟩
+  intro f hf hp L C hh
+  rcases List.mem_cons.1 hf with rfl | hf
+  · exact h.clip L C hh
+  · exact hc f hf hp L C hh
+
+theorem Mid.savepen {rb0 rb : RB} {n : Nat} (h : Mid rb0 n rb) : Mid rb0 (n + 1) rb.savepen := by
+  obtain ⟨extra, he, hl, hc⟩ := h.stack
+  refine ⟨⟨{ xl := rb.xl, xc := rb.xc, clip := rb.clip, pen := rb.pen, penOnly := true } :: extra,
+    by simp [RB.savepen, he], by simp [hl], ?_⟩, h.masks, h.lines, h.cols, h.clip, h.cells⟩
+  intro f hf hp L C hh
+  rcases List.mem_cons.1 hf with rfl | hf
+  · exact h.clip L C hh
+  · exact hc f hf hp L C hh
+
+theorem Mid.restore {rb0 rb : RB} {n : Nat} (hm : MasksLe rb0) (h : Mid rb0 (n + 1) rb) : Mid rb0 n rb.restore := by
+  obtain ⟨extra, he, hl, hc⟩ := h.stack
+  cases extra with
+  | nil => simp at hl
+  | cons f extra' =>
+    have hstack : rb.stack = f :: (extra' ++ rb0.stack) := by simpa using he
+    have hmasks : rb.masks.filter (fun m => decide (m.2 ≤ (extra' ++ rb0.stack).length)) = rb0.masks := by
+      rw [h.masks]
+      apply List.filter_eq_self.mpr
+      intro m hmm
+      have := hm m hmm
+      simp only [List.length_append, decide_eq_true_eq]
+      omega
+    have hc' : ∀ g ∈ extra', g.penOnly = false → ∀ L C, clipHas g.clip L C = true → rb0.inClip L C = true :=
+      fun g hg => hc g (List.mem_cons_of_mem _ hg)
+    unfold RB.restore
+    rw [hstack]
+    simp only
+    cases hp : f.penOnly with
+    | true =>
+      simp only [if_true]
+      exact ⟨⟨extra', rfl, by simpa using hl, hc'⟩, hmasks, h.lines, h.cols, h.clip, h.cells⟩
+    | false =>
+      simp only [Bool.false_eq_true, if_false]
+      refine ⟨⟨extra', rfl, by simpa using hl, hc'⟩, hmasks, h.lines, h.cols, ?_, h.cells⟩
+      intro L C hh
+      exact hc f (List.mem_cons_self ..) hp L C hh
+
+theorem Mid.unwind (rb0 : RB) (hm : MasksLe rb0) : ∀ (n : Nat) (rb : RB), Mid rb0 n rb → Mid rb0 0 (RB.unwind n rb) := by
+  intro n
+  induction n with
+  | zero => intro rb h; exact h
+  | succ n ih => intro rb h; exact ih rb.restore (h.restore hm)
+
+theorem Mid.runAux (rb0 : RB) (hm : MasksLe rb0) :
+    ∀ (prog : List DrawOp) (n : Nat) (rb : RB), Mid rb0 n rb → Mid rb0 0 (RB.runAux n rb prog) := by
+  intro prog
+  induction prog with
+  | nil => intro n rb h; exact Mid.unwind rb0 hm n rb h
+  | cons op rest ih =>
+    intro n rb h
+    cases op with
+    | save => exact ih (n + 1) rb.save h.save
+    | savepen => exact ih (n + 1) rb.savepen h.savepen
+    | restore =>
+      cases n with
+      | zero => exact ih 0 rb h
+      | succ n => exact ih n rb.restore (h.restore hm)
+    | eraseRect r => exact ih n _ (h.draw (draw_draws rb _ rfl))
+    | skipRect r => exact ih n _ (h.draw (draw_draws rb _ rfl))
+    | textAt l c s => exact ih n _ (h.draw (draw_draws rb _ rfl))
+    | charAt l c cp => exact ih n _ (h.draw (draw_draws rb _ rfl))
+    | clear => exact ih n _ (h.draw (draw_draws rb _ rfl))
+    | setPen p => exact ih n _ (h.draw (draw_draws rb _ rfl))
+    | translate d r => exact ih n _ (h.draw (draw_draws rb _ rfl))
+    | clip r => exact ih n _ (h.draw (draw_draws rb _ rfl))
+    | hline l c0 c1 st caps => exact ih n _ (h.draw (draw_draws rb _ rfl))
+    | vline l0 l1 c st caps => exact ih n _ (h.draw (draw_draws rb _ rfl))
+    | copyRect d s => exact ih n _ (h.draw (draw_draws rb _ rfl))
+    | moveRect d s => exact ih n _ (h.draw (draw_draws rb _ rfl))
+
+theorem unwind_stack : ∀ (n : Nat) (rb : RB) (extra base : List Frame), rb.stack = extra ++ base → extra.length = n →
+    (RB.unwind n rb).stack = base := by
+  intro n
+  induction n with
+  | zero =>
+    intro rb extra base he hl
+    have : extra = [] := List.eq_nil_of_length_eq_zero hl
+    subst this
+    show rb.stack = base
+    simpa using he
+  | succ n ih =>
+    intro rb extra base he hl
+    cases extra with
+    | nil => simp at hl
+    | cons f extra' =>
+      refine ih rb.restore extra' base ?_ (by simpa using hl)
+      unfold RB.restore
+      rw [he]
+      simp
+
+theorem runAux_stack : ∀ (prog : List DrawOp) (n : Nat) (rb : RB) (extra base : List Frame),
+    rb.stack = extra ++ base → extra.length = n → (RB.runAux n rb prog).stack = base := by
+  intro prog
+  induction prog with
+  | nil => intro n rb extra base he hl; exact unwind_stack n rb extra base he hl
+  | cons op rest ih =>
+    intro n rb extra base he hl
+    have hdraw : ∀ o : DrawOp, o.isStack = false → (RB.runAux n (rb.draw o) rest).stack = base :=
+      fun o ho => ih n _ extra base (by rw [(draw_draws rb o ho).stack, he]) hl
+    cases op with
+    | save =>
+      exact ih (n + 1) rb.save ({ xl := rb.xl, xc := rb.xc, clip := rb.clip, pen := rb.pen, penOnly := false } :: extra) base
+        (by simp [RB.save, he]) (by simp [hl])
+    | savepen =>
+      exact ih (n + 1) rb.savepen ({ xl := rb.xl, xc := rb.xc, clip := rb.clip, pen := rb.pen, penOnly := true } :: extra) base
+        (by simp [RB.savepen, he]) (by simp [hl])
+    | restore =>
+      cases n with
+      | zero => exact ih 0 rb extra base he hl
+      | succ n =>
+        cases extra with
+        | nil => simp at hl
+        | cons f extra' =>
+          refine ih n rb.restore extra' base ?_ (by simpa using hl)
+          unfold RB.restore
+          rw [he]
+          simp
+    | eraseRect r => exact hdraw _ rfl
+    | skipRect r => exact hdraw _ rfl
+    | textAt l c s => exact hdraw _ rfl
+    | charAt l c cp => exact hdraw _ rfl
+    | clear => exact hdraw _ rfl
+    | setPen p => exact hdraw _ rfl
+    | translate d r => exact hdraw _ rfl
+    | clip r => exact hdraw _ rfl
+    | hline l c0 c1 st caps => exact hdraw _ rfl
+    | vline l0 l1 c st caps => exact hdraw _ rfl
+    | copyRect d s => exact hdraw _ rfl
+    | moveRect d s => exact hdraw _ rfl
+
+/-- A handler's program leaves the save/restore stack as it found it (no assumption on the masks). -/
+theorem run_stack (prog : List DrawOp) (rb : RB) : (rb.run prog).stack = rb.stack :=
+  runAux_stack prog 0 rb [] rb.stack rfl rfl
+
+theorem run_mid (prog : List DrawOp) (rb : RB) (hm : MasksLe rb) : Mid rb 0 (rb.run prog) :=
+  Mid.runAux rb hm prog 0 rb (Mid.start rb)
+
+/-- A handler's program leaves the frame as it found it — whatever it saves and restores in between. -/
+theorem run_sameFrame (prog : List DrawOp) (rb : RB) (hm : MasksLe rb) : SameFrame rb (rb.run prog) := by
+  have h := run_mid prog rb hm
+  obtain ⟨extra, he, hl, _⟩ := h.stack
+  have : extra = [] := List.eq_nil_of_length_eq_zero hl
+  subst this
+  exact ⟨by simpa using he, h.masks, h.lines, h.cols⟩
+
+theorem run_writable_sub (prog : List DrawOp) (rb : RB) (hm : MasksLe rb) (L C : Int) :
+    (rb.run prog).writable L C = true → rb.writable L C = true :=
+  (run_mid prog rb hm).writable L C
+
+/-- **Confinement of a drawing program**: whatever the program — texts, erases, characters, line segments, copies and
+    moves of rectangles, at any coordinates, under any clip, translation and pen it sets up, saved and restored in any
+    nesting — a cell the buffer does not let it touch keeps its value. -/
+theorem run_cells_of_not_writable (prog : List DrawOp) (rb : RB) (hm : MasksLe rb) (L C : Int) :
+    rb.writable L C = false → (rb.run prog).cells L C = rb.cells L C :=
+  (run_mid prog rb hm).cells L C
 
 /-! ### what the flush sends -/
 
